@@ -8,6 +8,11 @@
 (*  {"op":"expand","strategy":"exact"|"ternary","lo":n,"hi":n,"ok":b,"rules":[[port,mask],..]}   *)
 (*  {"op":"trivial","lo":n,"hi":n,"ok":b,"rules":[[port,mask]]}                                  *)
 (*  {"op":"product","slo":n,"shi":n,"dlo":n,"dhi":n,"ok":b,"rules":[[sp,sm,dp,dm],..]}           *)
+(*  {"op":"parse","lo":n,"hi":n,"side":"src"|"dst","ok":b,"rlo":n,"rhi":n,"rules":[]}           *)
+(*     the port text "lo-hi" of a flow description as the real parser read it: what reaches the  *)
+(*     expansion functions.  An inverted text (lo > hi) denotes no port and must be refused;      *)
+(*     an accepted one is read back as written (otherwise the entries built from it are not the  *)
+(*     range that was signalled, however exact the expansion).                                   *)
 EXTENDS PortRange, TraceLib
 
 VARIABLES l,      \* next line
@@ -20,21 +25,25 @@ Rules2(rs) == [i \in 1..Len(rs) |-> [port |-> rs[i][1], mask |-> rs[i][2]]]
 Rules4(rs) == [i \in 1..Len(rs) |-> [sp |-> rs[i][1], sm |-> rs[i][2], dp |-> rs[i][3], dm |-> rs[i][4]]]
 InW(n) == n \in 0..Limit
 
+ParsedAsWritten(e) == IF e.lo > e.hi THEN ~e.ok ELSE (e.ok => e.rlo = e.lo /\ e.rhi = e.hi)
+
 WellFormed(e) ==
-  IF e.op = "product"
+  IF e.op = "parse" THEN InW(e.lo) /\ InW(e.hi) /\ InW(e.rlo) /\ InW(e.rhi)
+  ELSE IF e.op = "product"
   THEN /\ InW(e.slo) /\ InW(e.shi) /\ InW(e.dlo) /\ InW(e.dhi) /\ e.slo <= e.shi /\ e.dlo <= e.dhi
        /\ \A i \in 1..Len(e.rules) : \A k \in 1..4 : InW(e.rules[i][k])
   ELSE /\ InW(e.lo) /\ InW(e.hi) /\ e.lo <= e.hi
        /\ \A i \in 1..Len(e.rules) : \A k \in 1..2 : InW(e.rules[i][k])
 
 Exact(e) ==
+  IF e.op = "parse" THEN ParsedAsWritten(e) ELSE
   ~e.ok \/
   IF e.op = "product"
   THEN ExactCoverPair(Rules4(e.rules), EffLo(e.slo, e.shi), EffHi(e.slo, e.shi), EffLo(e.dlo, e.dhi), EffHi(e.dlo, e.dhi))
   ELSE ExactCover(Rules2(e.rules), EffLo(e.lo, e.hi), EffHi(e.lo, e.hi))
 
 Wild(e) ==
-  ~e.ok \/
+  ~e.ok \/ e.op = "parse" \/
   IF e.op = "product"
   THEN \A i \in 1..Len(e.rules) : /\ (e.rules[i][2] = 0 => IsFull(e.slo, e.shi))
                                   /\ (e.rules[i][4] = 0 => IsFull(e.dlo, e.dhi))
@@ -43,7 +52,7 @@ Wild(e) ==
 Init == l = 1 /\ exact = TRUE /\ wild = TRUE /\ wf = TRUE /\ InitHw
 
 Call == /\ l <= Len(Trace)
-        /\ Trace[l].op \in {"expand", "trivial", "product"}
+        /\ Trace[l].op \in {"expand", "trivial", "product", "parse"}
         /\ wf' = WellFormed(Trace[l])
         /\ exact' = (wf' => Exact(Trace[l]))
         /\ wild' = (wf' => Wild(Trace[l]))
